@@ -371,7 +371,69 @@ func laneSettings(c *ev.Ctx, id string, seed int64) {
 		c.Distinct("S|create-on-existing|" + who.name + "|" + store)
 	}
 	checkAll("after-create-on-existing")
+	// a bucket that is deleted and created again under the same name is a NEW bucket: nothing written to the
+	// deleted one may read back from it ("gone once deleted"), and it belongs to whoever created it
+	b2 := "set-bucket-reborn"
+	if rr := cl[0].CreateBucket(b2); !rr.OK() {
+		c.Inconclusive("create second bucket: " + rr.String())
+		return
+	}
+	written := map[string]bool{}
+	for _, s := range settings() {
+		if s.name == "object-lock" {
+			continue
+		}
+		if p := cl[0].Sub("PUT", b2, "", s.sub, s.gen(r, b2)); p.OK() {
+			written[s.name] = true
+		}
+	}
+	cl[0].PutObject(b2, "o", []byte("x"))
+	cl[0].DeleteObject(b2, "o")
+	// versioning may have been enabled by the generated document: remove whatever versions exist
+	if lv := cl[0].Sub("GET", b2, "", "versions=", nil); lv.OK() {
+		var l struct {
+			Version, DeleteMarker []struct{ Key, VersionId string }
+		}
+		xml.Unmarshal(lv.Body, &l)
+		for _, v := range append(l.Version, l.DeleteMarker...) {
+			cl[0].Do(&s3c.Req{Method: "DELETE", Path: s3c.ObjPath(b2, v.Key), Query: s3c.Q("versionId", v.VersionId)})
+		}
+	}
+	if d := cl[0].DeleteBucket(b2); d.Status != 204 && d.Status != 200 {
+		c.Observe("reborn lane: DeleteBucket refused: " + d.String())
+		return
+	}
+	plus := cl[1].With("plus1", "plussecret1")
+	if rr := plus.CreateBucket(b2); !rr.OK() {
+		c.Inconclusive("re-create by another account: " + rr.String())
+		return
+	}
+	c.Eval(1)
+	for _, s := range settings() {
+		if !written[s.name] || s.goneOK == nil || s.name == "ownershipControls" {
+			continue
+		}
+		if g := get2(cl[0], b2, s); !s.goneOK(g) {
+			c.Violation("reborn-bucket:"+s.name+":inherited-from-deleted-bucket["+store+"]", id, map[string]any{"get": g.String(), "body": string(g.Body)})
+		} else {
+			c.Distinct("S|reborn|" + s.name + "|" + store)
+		}
+	}
+	if written["versioning"] {
+		if g := cl[0].Sub("GET", b2, "", "versioning=", nil); strings.Contains(string(g.Body), "<Status>") {
+			c.Violation("reborn-bucket:versioning:inherited-from-deleted-bucket["+store+"]", id, map[string]any{"get": g.String(), "body": string(g.Body)})
+		}
+	}
+	if g := cl[0].Sub("GET", b2, "", "acl=", nil); g.OK() && !strings.Contains(string(g.Body), "<ID>plus1</ID>") {
+		c.Violation("reborn-bucket:acl:owner-is-not-the-creator["+store+"]", id, map[string]any{"get": g.String(), "body": string(g.Body)})
+	}
+	// the creator can use it, without any grant left over from the deleted bucket
+	if pr := plus.PutObject(b2, "mine", []byte("y")); !pr.OK() {
+		c.Violation("reborn-bucket:creator-cannot-write["+store+"]", id, map[string]any{"put": pr.String()})
+	}
 }
+
+func get2(cli *s3c.Client, b string, s setting) *s3c.Resp { return cli.Sub("GET", b, "", s.sub, nil) }
 
 func laneListBuckets(c *ev.Ctx, id string, seed int64) {
 	r := rand.New(rand.NewSource(seed))
